@@ -255,9 +255,9 @@ def check_remove_zeros(case):
         if out["blocks"].get(name) != inp["blocks"][name]:
             raise Fail("remove_matrixzeros_sinex: %s block is not unchanged" % name, expected=inp["blocks"][name][:4],
                        observed=(out["blocks"].get(name) or [])[:4], bucket="zeros " + name)
-    zero = "0.00000000000000e+00"
+    # a line is all-zero when every element it carries is the number zero (decided on the values, not on their spelling)
     want = [ln for ln in inp["blocks"]["SOLUTION/MATRIX_ESTIMATE"]
-            if ln.startswith("*") or not all(v == zero for v in ln.split()[2:])]
+            if ln.startswith("*") or not all(float(v) == 0.0 for v in ln.split()[2:])]
     got = out["blocks"].get("SOLUTION/MATRIX_ESTIMATE")
     if got != want:
         raise Fail("remove_matrixzeros_sinex: matrix block is not the input block minus its all-zero lines, each on its own line",
@@ -383,8 +383,13 @@ def specs(draw, vel=None, max_sets=12):
     A = rng.uniform(-1, 1, (npar, npar))
     grp = rng.randint(0, draw(st.sampled_from([1, 2, 3])), size=npar // 3)
     mask = np.array([[1.0 if grp[i // 3] == grp[j // 3] else 0.0 for j in range(npar)] for i in range(npar)])
-    C = (A @ A.T) * mask * draw(S.log_uniform(1e-8, 1e-2))
-    C = C + np.eye(npar) * 1e-9
+    scale = draw(st.one_of(S.log_uniform(1e-8, 1e-2), S.log_uniform(1e-8, 1e-2), S.log_uniform(1e-24, 1e-10)))
+    C = (A @ A.T) * mask * scale
+    C = C + np.eye(npar) * min(1e-9, scale * 1e-3)
+    if draw(st.integers(0, 5)) == 0:
+        # very weakly correlated stations: cross terms many orders of magnitude below the variances, but not zero
+        blk = np.array([[1.0 if i // 3 == j // 3 else draw(st.sampled_from([1e-9, 1e-12, 0.0])) for j in range(npar)] for i in range(npar)])
+        C = C * np.minimum(blk, blk.T)
     cov = [[SX.quantise(float(C[max(i, j)][min(i, j)])) + 0.0 for j in range(npar)] for i in range(npar)]
     sd = [float(np.sqrt(cov[i][i])) for i in range(npar)]
     created = _stamp(draw)
